@@ -252,9 +252,9 @@ def run_item(item):
         return violated('c14:' + key, what, exp, obs, run=res, counters=counters, sets=sets)
     pos = 0
 
-    def skip_blank(p, stop_text=None):
+    def skip_blank(p, stop_text=None, text_too=True):
         # (in log mode also the commit header / message / diff-stat rows, which carry no reserved colour)
-        while p < len(infos) and (infos[p].kind == 'blank' or (log_mode and infos[p].kind == 'text' and
+        while p < len(infos) and (infos[p].kind == 'blank' or (log_mode and text_too and infos[p].kind == 'text' and
                                                                (stop_text is None or ' '.join(infos[p].text.split()) != ' '.join(stop_text.split())))):
             p += 1
         return p
@@ -295,7 +295,7 @@ def run_item(item):
                 pos += 1
         consumed_all = False
         for h in s.hunks:
-            pos = skip_blank(pos)
+            pos = skip_blank(pos, text_too=False)      # (rows of the commit header that follows belong to the next section)
             frag = h.fragment
             if consumed_all and not (bool(hh) or bool(frag.strip())):
                 continue     # side-by-side rows of this header-less hunk were consumed with the previous one
